@@ -146,6 +146,10 @@ def spell_part(rng, p, force_dict=False):
     entries = []
     if p["cond"] is not None:
         entries.append(("condition", spell_tree(rng, p["cond"])))
+    if p["rk"] == "mol":
+        for nm, slot in (("list_condition", "lcond"), ("map_condition", "mcond")):
+            if p.get(slot) is not None:
+                entries.append((nm, spell_tree(rng, p[slot])))
     for nm in ("value", "key", "index"):
         x = p.get(nm)
         if x is None or (nm == "key" and p["rk"] == "list") or (nm == "index" and p["rk"] == "map"):
@@ -160,7 +164,7 @@ def spell_part(rng, p, force_dict=False):
                 continue
         entries.append((nm, cs))
     given = {k.split(".")[0] for k, _ in entries}
-    for nm in ("condition", "value", "key", "index", "label"):
+    for nm in ("condition", "value", "key", "index", "label") + (("list_condition", "map_condition") if p["rk"] == "mol" else ()):
         # a slot left empty may be written out as an explicit null (YAML `value:` / JSON null): the same part
         if nm not in given and not (nm == "key" and p["rk"] == "list") and not (nm == "index" and p["rk"] == "map") \
                 and not (nm == "label" and p["label"] is not None) and rng.random() < 0.06:
